@@ -7,8 +7,8 @@
 EXTENDS TextOps, Json
 
 CONSTANTS GenDepth, MCDepth
-VARIABLES t, hist, op, prev
-vars == <<t, hist, op, prev>>
+VARIABLES t, sib, hist, op, prev
+vars == <<t, sib, hist, op, prev>>
 
 a == <<97, 1>>   b == <<98, 1>>   sp == <<32, 1>>   tb == <<9, 1>>   nl == <<10, 1>>
 wd == <<19990, 2>>   zw == <<769, 0>>   cr == <<13, 1>>
@@ -23,7 +23,9 @@ Strs == { <<a>>, <<sp>>, <<b, nl>> }
 
 On == TRUE
 Log == hist' = Append(hist, op') /\ prev' = t
-Do(e) == LET r == Apply(t, e) IN t' = Settle(r.cur) /\ op' = e /\ Log
+Do(e) == LET r == Apply(t, e) IN t' = Settle(r.cur) /\ sib' = (IF r.err = "none" /\ Derives(e, r) THEN t ELSE sib) /\ op' = e /\ Log
+\* continue with the object the current one was derived from (it must be unaffected by later edits)
+SwapA       == On /\ t' = sib /\ sib' = t /\ op' = [k |-> "swap"] /\ Log
 
 New         == \E l \in Lits : On /\ Do([k |-> "new", t |-> l])
 AppendStrA  == \E s \in Strs, y \in {0, 2} : On /\ Do([k |-> "append_str", str |-> s, sty |-> y])
@@ -54,10 +56,10 @@ StylizeA    == \E y \in {1, 3}, r \in {<<0, 1>>, <<1, 0>>, <<0 - 1, 0>>, <<0, 0 
                    On /\ Do([k |-> "stylize", sty |-> y, a |-> r[1], hasB |-> r[2] # 0, b |-> r[2]])
 CopyStylesA == Len(t.chars) >= 2 /\ Do([k |-> "copy_styles", spans |-> << <<0, 2, 4>> >>])
 
-Init == t = [chars |-> <<>>, base |-> 0] /\ hist = <<>> /\ op = [k |-> "init"] /\ prev = t
+Init == t = [chars |-> <<>>, base |-> 0] /\ sib = [chars |-> <<>>, base |-> 0] /\ hist = <<>> /\ op = [k |-> "init"] /\ prev = t
 Next == New \/ AppendStrA \/ AppendTextA \/ AssembleA \/ JoinA \/ SplitA \/ DivideA \/ IndexA \/ SliceA
         \/ PadA \/ AlignA \/ TruncateA \/ RightCropA \/ SetLengthA \/ ExpandTabsA \/ CopyA \/ RstripA
-        \/ RstripEndA \/ RemoveSuffixA \/ StylizeA \/ CopyStylesA
+        \/ RstripEndA \/ RemoveSuffixA \/ StylizeA \/ CopyStylesA \/ SwapA
 Spec == Init /\ [][Next]_vars
 
 \* ---- laws of the reference semantics -------------------------------------------------------
@@ -84,7 +86,7 @@ SurvivorsKeepStyle ==   \* a crop / pad / copy never alters the style of a chara
         \A i \in 1..Min(Len(t.chars), Len(prev.chars)) : Eff(t)[i].set = Eff(prev)[i].set /\ Eff(t)[i].top = Eff(prev)[i].top
 NoControlChars == \A i \in DOMAIN t.chars : t.chars[i].c \notin Stripped
 
-View == <<t, op, prev>>
+View == <<t, sib, op, prev>>
 DepthBound == Len(hist) <= MCDepth /\ Len(t.chars) <= 12
 Emit == /\ Len(hist) <= GenDepth
         /\ (Len(hist) = GenDepth => PrintT(ToJson([beh |-> hist])))
